@@ -39,6 +39,7 @@ let parse_op (w : string list) : op option =
   | [] -> None
   | "new" :: [x] -> (match fin x with Some f -> Some (Alloc f) | None -> None)
   | "newc" :: [x] -> (match fin x with Some f -> Some (AllocCyclic f) | None -> None)
+  | "link" :: [x; y; k] when int_of_string_opt k <> None -> a2 (fun a b -> Link (a, b)) [x; y]   (* container shape: harness only *)
   | "link" :: r -> a2 (fun a b -> Link (a, b)) r
   | "unlink" :: r -> a2 (fun a b -> Unlink (a, b)) r
   | "load" :: r -> a2 (fun a b -> Load (a, b)) r
